@@ -452,7 +452,7 @@ func runG(t *testing.T, ch *vs.Choices, prop, tier string, render bool) *vs.RunO
 			"config":   p.Config(),
 			"strategy": x.strategy,
 			"outcome":  x.outcome.String(),
-			"error":    fmt.Sprint(x.err),
+			"error":    vs.StripDir(fmt.Sprint(x.err), dir),
 			"exit":     code,
 			"trace":    traceLines(x.events),
 			"schedule": x.log,
